@@ -187,6 +187,22 @@ impl Iterator for LyingIter {
     }
 }
 
+struct PanicDropOwner {
+    buf: Vec<u8>,
+}
+impl AsRef<[u8]> for PanicDropOwner {
+    fn as_ref(&self) -> &[u8] {
+        &self.buf
+    }
+}
+impl Drop for PanicDropOwner {
+    fn drop(&mut self) {
+        if !std::thread::panicking() {
+            panic!("owner destructor panics");
+        }
+    }
+}
+
 struct FlakyOwner {
     a: Vec<u8>,
     b: Vec<u8>,
@@ -232,7 +248,7 @@ fn touch(b: &[u8]) {
     }
 }
 
-pub const N_ENTRY: usize = 36;
+pub const N_ENTRY: usize = 38;
 
 /// Drive one consumer with a lying implementation. Returns a name for coverage.
 pub fn consumer(entry: usize, plan: &Plan, aux: usize) -> &'static str {
@@ -514,6 +530,92 @@ pub fn consumer(entry: usize, plan: &Plan, aux: usize) -> &'static str {
                 }
             }
             "cts-reader-put-iter"
+        }
+        36 => {
+            // an owner whose destructor panics (only when not already unwinding): the crate's block holding the
+            // owner must still be released exactly once, whichever call drops the last view
+            let o = PanicDropOwner { buf: vec![7; 1 + aux % 40] };
+            let b = Bytes::from_owner(o);
+            let c = b.clone();
+            let s = c.slice(..c.len() / 2);
+            match aux % 5 {
+                0 => {
+                    drop(b);
+                    drop(s);
+                    drop(c); // last view: the destructor panics here
+                }
+                1 => {
+                    drop(b);
+                    drop(c);
+                    let v: Vec<u8> = s.into(); // copies, then releases the owner: panic after the copy
+                    touch(&v);
+                }
+                2 => {
+                    drop(c);
+                    drop(s);
+                    let m = BytesMut::from(b);
+                    touch(&m);
+                }
+                3 => {
+                    drop(s);
+                    drop(c);
+                    if let Err(b) = b.try_into_mut() {
+                        touch(&b);
+                    }
+                }
+                _ => {
+                    let mut t = c;
+                    drop(b);
+                    drop(s);
+                    t.truncate(0);
+                    t.clear();
+                }
+            }
+            "from_owner-drop-panics"
+        }
+        37 => {
+            // an iterator that panics in the middle of `extend`, after the buffer had to grow: the handle must still be
+            // a valid, usable buffer afterwards (it is read, written and dropped after the panic was caught)
+            let hint = match aux % 4 {
+                0 => (0, None),
+                1 => (1, Some(1)),
+                2 => (3, None),
+                _ => (0, Some(0)),
+            };
+            let n = 20 + aux % 300;
+            let it = LyingIter { n, i: 0, hint, panic_at: Some(4 + (aux / 4) % (n - 4)) };
+            let mut sibling: Option<BytesMut> = None;
+            let mut m = match (aux / 7) % 4 {
+                0 => BytesMut::with_capacity(2),
+                1 => {
+                    let mut m = BytesMut::from(&b"0123456789"[..]);
+                    m.advance(7); // inline-Vec form with a front offset
+                    m
+                }
+                2 => {
+                    let mut m = BytesMut::from(&b"abcdefgh"[..]);
+                    drop(m.split_to(3)); // shared form, unique again, at an offset
+                    m
+                }
+                _ => {
+                    let mut m = BytesMut::from(&b"abcdefgh"[..]);
+                    sibling = Some(m.split_to(3)); // shared form with a live sibling
+                    m
+                }
+            };
+            let before = m.to_vec();
+            let r = crate::util::catch(|| m.extend(it));
+            assert!(r.is_err(), "budget: the iterator was expected to panic");
+            touch(&m);
+            let _ = m.starts_with(&before);
+            m.put_u8(1);
+            m.reserve(64);
+            touch(&m);
+            drop(m);
+            if let Some(sib) = sibling {
+                touch(&sib);
+            }
+            "extend-panics-midway"
         }
         _ => {
             if aux % 2 == 0 {
